@@ -20,17 +20,27 @@ def scenario(args):
     for i in ids:
         nodes.append(dict(addr=0o4444, kind="mesh" if (kindmix and rng.random() < 0.5) else "meshnm", node_id=i))
     fate = None
-    if loss:
+    if loss and loss != "confirm-lost":
         lr = random.Random(seed + 1)
         fate = lambda pkt: ("P" if lr.random() < loss else "D")
-    ns = net.NetSim(nodes, seed=seed, jitter=jitter, spi_ns=40_000, fate_fn=fate, gap_ms=400)
-    names = [nd["name"] for nd in nodes]
+    faults = None
     timeout = 7.5
+    if loss == "confirm-lost":      # the lease is granted but the joiner's confirmation look-ups never get through
+        fate, timeout = None, 1.2
+        faults = [dict(src="n%d" % (k + 1), kind="type198", fate="P") for k in range(nj)]
+    ns = net.NetSim(nodes, seed=seed, jitter=jitter, spi_ns=40_000, fate_fn=fate, gap_ms=400, faults=faults)
+    names = [nd["name"] for nd in nodes]
     scripts = {}
     for k, nm in enumerate(names[1:]):
         at = int(k * stagger_ms * 1_000_000) + rng.randrange(0, 2_000_000)
         scripts[nm] = [(at, lambda s_, n_, to=timeout: s_.mesh_call(n_, "join", lambda o: o.renew_address(to), timeout_ms=int(to * 1000)))]
     jobs = []
+    if loss == "confirm-lost":
+        tr = ns.run([], scripts=scripts)
+        tr["lossy"] = True
+        tr["meta"] = dict(joiners=nj, ids=ids, seed=seed, jitter=jitter, stagger_ms=stagger_ms, loss=loss,
+                          joins=[[e["id"], e["res"], (e["t"] - e["t0"]) // 1000] for e in tr["mesh"] if e["op"] == "join"])
+        return tr
     J = names[1:]
     idof = {nd["name"]: nd["node_id"] for nd in nodes}
     unknown_id = next(i for i in range(1, 256) if i not in ids)
@@ -82,6 +92,8 @@ def build(chk):
     for nj in ([2, 4] if quick else [1, 2, 4, 6]):
         for rep in range(1 if quick else 4):
             jobs.append((nj, chk.seed * 9973 + len(jobs), 3000, 50, rng.choice([0.05, 0.15]), False))
+    for nj in (1, 2):
+        jobs.append((nj, chk.seed * 9973 + len(jobs), 3000, 100, "confirm-lost", False))
     return jobs
 
 
